@@ -320,7 +320,8 @@ is_nan_p = fn_p(fn=math.isnan)
 # Construction of a lazy predicate to check for valid json
 
 _valid_json_p = lazy_p("is_json_p")
-json_list_p = is_list_p & lazy_p("json_values")
+_json_values_p = lazy_p("json_values")
+json_list_p = is_list_p & _json_values_p
 
 json_keys_p = all_p(is_str_p)
 
@@ -329,3 +330,7 @@ json_values_p = comp_p(lambda x: x.values(), json_values)
 
 is_json_p = (is_dict_p & json_keys_p & json_values_p) | json_list_p
 """Returns True if the value is a valid json structure, otherwise False."""
+
+# Bind the two references here, so that is_json_p does not depend on the names visible to its caller
+_valid_json_p.predicate = is_json_p
+_json_values_p.predicate = json_values
